@@ -13,8 +13,9 @@ def main():
         print("SANY failed on %s\n%s" % (f, out))
     jobs = []
     for fl in ("rel", "asan-ubsan"):
-        for exe in ("record", "replay"):
+        for exe in ("record", "replay", "record_algo"):
             jobs.append((fl, exe))
+    jobs.append(("asan", "record_algo"))
     vlib.build_many(jobs)
     print("setup ok: %d harness builds" % len(jobs))
     return 1 if bad else 0
